@@ -1,7 +1,87 @@
 import Driver.Util
-open Lean
+import Heph.Model.Diag
+import Heph.Spec.Diag
+open Lean Heph.Diag
 namespace Driver.Diag
 
-def handle : Handler := fun _ _ => none
+def parseCompiler : String → Except String Compiler
+  | "java" => pure .javac
+  | "kotlin" => pure .kotlinc
+  | "groovy" => pure .groovyc
+  | "scala" => pure .scalac
+  | s => throw s!"unknown compiler {s}"
+
+def str (l : List Char) : Json := Json.str (String.ofList l)
+
+/-- text either as a JSON string or (for characters JSON escapes cannot carry safely) as an
+array of code points under `<key>_cps` -/
+def getText (j : Json) (k : String) : Except String (List Char) :=
+  match j.getObjVal? (k ++ "_cps") with
+  | .ok a => do
+    let ns ← natList a
+    pure (ns.map Char.ofNat)
+  | .error _ => do
+    let s ← getStr j k
+    pure s.toList
+
+def failedJson (f : Failed) : Json :=
+  Json.arr (f.toArray.map fun p => Json.arr #[str p.1, Json.arr (p.2.toArray.map str)])
+
+def getChars (j : Json) (k : String) : Except String (List Char) := do
+  match j.getObjVal? k with
+  | .ok v => do
+    let s ← v.getStr?
+    pure s.toList
+  | .error _ => pure []
+
+def parseItem (j : Json) : Except String Item := do
+  let kind ← getStr j "k"
+  let det : Except String (List (List Char)) := match j.getObjVal? "detail" with
+    | .ok a => do
+      let arr ← a.getArr?
+      arr.toList.mapM fun x => do
+        let s ← x.getStr?
+        pure s.toList
+    | .error _ => pure []
+  let pad := match getNat j "pad" with
+    | .ok n => n
+    | .error _ => 0
+  match kind with
+  | "error" => pure (.error (← getChars j "file") (← getChars j "line") (← getChars j "col")
+      (← getChars j "msg") pad (← det))
+  | "warning" => pure (.warning (← getChars j "file") (← getChars j "line") (← getChars j "col")
+      (← getChars j "msg") pad (← det))
+  | "note" => pure (.note (← getChars j "text"))
+  | "summary" => pure (.summary (← getChars j "count"))
+  | s => throw s!"unknown item kind {s}"
+
+def handle : Handler := fun op j =>
+  match op with
+  | "diag.render" => some do
+      let c ← parseCompiler (← getStr j "compiler")
+      let arr ← getArr j "items"
+      let items ← arr.toList.mapM parseItem
+      pure (res (Json.mkObj [
+        ("text", str (render c items)),
+        ("wf", Json.bool (items.all (wfItem c))),
+        ("expected", failedJson (groupByFile (expected c items)))]))
+  | "diag.analyze" => some do
+      let c ← parseCompiler (← getStr j "compiler")
+      let out ← getText j "output"
+      let fs ← match j.getObjVal? "filters" with
+        | .ok a => do
+          let arr ← a.getArr?
+          arr.toList.mapM fun x => do
+            let s ← x.getStr?
+            pure s.toList
+        | .error _ => pure []
+      let r := analyze c fs out
+      pure (res (Json.mkObj [("crash", Json.bool r.crash), ("failed", failedJson r.failed)]))
+  | "diag.findall" => some do
+      let c ← parseCompiler (← getStr j "compiler")
+      let out ← getText j "output"
+      let ms := findAll (matcher c) out
+      pure (res (Json.arr (ms.toArray.map fun p => Json.arr #[str p.1, str p.2])))
+  | _ => none
 
 end Driver.Diag
